@@ -86,9 +86,12 @@ def run(model, rep, tier):
     rep.ob('group-average', mod, call, '__call__: sum over zip(self.grouparray, self.indexpair[i][j]) divided by self.NG', ok,
            '' if ok else 'the symmetrised inverse Fourier transform is not the average over the stored operations',
            engine='flow', qual='GFCrystalcalc.__call__')
-    src = unparse(bd)
-    ok = 'for ng, g in enumerate(self.crys.G)' in src and 'grouparray[ng, :, :] = g.cartrot[:, :]' in src \
-        and 'indexmap = g.indexmap[self.chem]' in src
+    from ..engines import pattern
+    ok = False
+    for lp in [x for x in bd.body if isinstance(x, ast.For) and unparse(x.iter) == 'enumerate(self.crys.G)' and isinstance(x.target, ast.Tuple)]:
+        ng_, g_ = [unparse(t) for t in lp.target.elts]
+        ok = pattern.has(lp, '_N_ga[_N_ng, :, :] = _N_g.cartrot[:, :]', _N_ng=ng_, _N_g=g_) and \
+            pattern.has(lp, '_N_im = _N_g.indexmap[self.chem]', _N_g=g_)
     rep.ob('group-average', mod, bd, 'BreakdownGroups fills rotation and index pair for every operation of crys.G', ok,
            '' if ok else 'group arrays are not filled from every operation', engine='flow', qual='GFCrystalcalc.BreakdownGroups')
     init = ci.methods['__init__']
@@ -97,8 +100,12 @@ def run(model, rep, tier):
     rep.ob('group-average', mod, ng[0] if ng else init, 'self.NG = len(self.crys.G)', ok, '' if ok else 'NG is not the group order',
            engine='flow', qual='GFCrystalcalc.__init__')
     # pairs are looked up with the symmetry-mapped indices and the rotated displacement
-    src = unparse(call)
-    ok = 'self.gsc_ijq[pair[0], pair[1]]' in src and 'self.exp_dxq(np.dot(gop, dx))' in src
+    ok = False
+    if loops and isinstance(loops[0].target, ast.Tuple) and len(loops[0].target.elts) == 2:
+        gop_, pair_ = [unparse(t) for t in loops[0].target.elts]
+        dxp = call.args.args[3].arg if len(call.args.args) > 3 else 'dx'
+        ok = pattern.has(loops[0], 'self.gsc_ijq[_N_p[0], _N_p[1]]', 'expr', _N_p=pair_) and \
+            pattern.has(loops[0], 'self.exp_dxq(np.dot(_N_gop, _N_dx))', 'expr', _N_gop=gop_, _N_dx=dxp)
     rep.ob('group-average', mod, call, '__call__: term uses gsc_ijq[pair[0], pair[1]] with exp(-i q.(gop dx))', ok,
            '' if ok else 'site pair and displacement are not transformed by the same operation', engine='flow',
            qual='GFCrystalcalc.__call__')
